@@ -82,7 +82,42 @@ fn other_kinds<F: Function + MathFunction>(c: &Case, want: f32, backend: &str, b
     if want.is_nan() { return; }
     // a projective transform with w == 0 at the point has no transformed position (nalgebra leaves the
     // point undivided, the Grad / Interval transforms divide by zero): outside the claim
-    if let Some(m) = &c.mat { let w = m[(3, 0)] * c.p[0] + m[(3, 1)] * c.p[1] + m[(3, 2)] * c.p[2] + m[(3, 3)]; if w == 0.0 || !w.is_finite() { return; } }
+    // ... and when w nearly cancels, the transformed position is ill-conditioned (the evaluator kinds round it differently)
+    if let Some(m) = &c.mat { let t = [m[(3, 0)] * c.p[0], m[(3, 1)] * c.p[1], m[(3, 2)] * c.p[2], m[(3, 3)]]; let w: f32 = t.iter().sum(); let mag: f32 = t.iter().map(|v| v.abs()).sum();
+        if w == 0.0 || !w.is_finite() || w.abs() <= 2e-2 * mag { return; } }
+    // With a transform, the gradient and interval evaluators transform the position in their own arithmetic
+    // (different rounding from nalgebra's point transform), and the functions here are not continuous
+    // (floor, compare, mod ...).  So: (1) the three transforms must agree on the position; (2) each evaluator
+    // must give what the POINT evaluator gives at the position that evaluator itself computed.
+    let point_at = |x: f32, y: f32, z: f32| -> Option<f32> {
+        let tape = shape.point_tape(Default::default());
+        let mut e = Shape::<F>::new_point_eval();
+        e.eval_with_vars(&tape, x, y, z, &sv).ok().map(|o| o.0)
+    };
+    let (gpos, ipos) = match &c.mat {
+        Some(m) => {
+            let (gx, gy, gz) = <Grad as Transformable>::transform(Grad::new(c.p[0], 1.0, 0.0, 0.0), Grad::new(c.p[1], 0.0, 1.0, 0.0), Grad::new(c.p[2], 0.0, 0.0, 1.0), m);
+            let (ix, iy, iz) = <Interval as Transformable>::transform(Interval::from(c.p[0]), Interval::from(c.p[1]), Interval::from(c.p[2]), m);
+            let (fx, fy, fz) = <f32 as Transformable>::transform(c.p[0], c.p[1], c.p[2], m);
+            let mag = |i: usize| (0..3).map(|j| (m[(i, j)] * c.p[j]).abs()).sum::<f32>() + m[(i, 3)].abs();
+            let wv = (0..3).map(|j| m[(3, j)] * c.p[j]).sum::<f32>() + m[(3, 3)];
+            for (k, (f, g, iv)) in [(fx, gx.v, ix), (fy, gy.v, iy), (fz, gz.v, iz)].iter().enumerate() {
+                let tol = 1e-4 * (mag(k) / wv.abs() + f.abs()) + 1e-30;
+                if (f - g).abs() > tol { bad.push(format!("kind=transform-position-differs backend={backend} coordinate {k}: point transform {f}, gradient transform {g}")); }
+                if !(iv.has_nan() || (iv.lower() - tol <= *f && *f <= iv.upper() + tol)) { bad.push(format!("kind=transform-position-differs backend={backend} coordinate {k}: point transform {f}, interval transform [{}, {}]", iv.lower(), iv.upper())); }
+            }
+            ([gx.v, gy.v, gz.v], [ix, iy, iz])
+        }
+        None => ([c.p[0], c.p[1], c.p[2]], [Interval::from(c.p[0]), Interval::from(c.p[1]), Interval::from(c.p[2])]),
+    };
+    // the value the expression takes at a position when abs keeps the sign of a negative zero, as Grad::abs and
+    // Interval::abs do (`if v < 0 { -v } else { v }`): atan2 / division / hashes downstream then see -0.0
+    let alt_at = |pos: [f32; 3]| -> f32 {
+        let mut orc = Oracle::default(); orc.abs_keeps_neg_zero = true;
+        let env = |v: Var| -> f32 { match v { Var::X => pos[0], Var::Y => pos[1], Var::Z => pos[2],
+            _ => { let k = c.dag.vs.iter().position(|x| *x == v).unwrap(); c.supplied.iter().find(|(kk, _)| *kk == k).map(|(_, v)| *v).unwrap_or(f32::NAN) } } };
+        eval_arena(&c.dag.ctx, &env, &mut orc)[c.root.verif_index()]
+    };
     // gradient: the value lane
     {
         let tape = shape.grad_slice_tape(Default::default());
@@ -90,21 +125,26 @@ fn other_kinds<F: Function + MathFunction>(c: &Case, want: f32, backend: &str, b
         let xs = [Grad::new(c.p[0], 1.0, 0.0, 0.0)]; let ys = [Grad::new(c.p[1], 0.0, 1.0, 0.0)]; let zs = [Grad::new(c.p[2], 0.0, 0.0, 1.0)];
         let r = match &c.mat { Some(m) => e.eval_with_transform_and_vars(&tape, &xs, &ys, &zs, m, &sv).map(|o| o.to_vec()),
                                None => e.eval_with_vars(&tape, &xs, &ys, &zs, &sv).map(|o| o.to_vec()) };
-        match r { Ok(o) => { let v = o[0].v; let tol = 1e-4 * (1.0 + want.abs());
-                             // with a transform the gradient evaluator transforms in Grad arithmetic (different rounding)
-                             if !(same(v, want) || (c.mat.is_some() && (v - want).abs() <= tol) || v.is_nan()) { bad.push(format!("kind=grad-value-differs backend={backend} grad {} point {}", v, want)); } }
-                  Err(e) => bad.push(format!("kind=grad-error backend={backend} {e}")) }
+        let expect = point_at(gpos[0], gpos[1], gpos[2]);
+        match (r, expect) { (Ok(o), Some(w2)) => { let v = o[0].v; if !(same(v, w2) || v.is_nan() || w2.is_nan()) { let kind = if same(alt_at(gpos), v) { "abs-keeps-negative-zero" } else { "grad-value-differs" };
+                             bad.push(format!("kind={kind} backend={backend} grad {} point evaluator at the same position {}", v, w2)); } }
+                  (Err(e), _) => bad.push(format!("kind=grad-error backend={backend} {e}")), _ => {} }
     }
-    // box evaluation on the degenerate box contains the point value
+    // box evaluation on the degenerate box contains the point value at the position the interval transform computed
     {
         let tape = shape.interval_tape(Default::default());
         let mut e = Shape::<F>::new_interval_eval();
         let (x, y, z) = (Interval::from(c.p[0]), Interval::from(c.p[1]), Interval::from(c.p[2]));
         let r = match &c.mat { Some(m) => e.eval_with_transform_and_vars(&tape, x, y, z, m, &sv).map(|o| o.0),
                                None => e.eval_with_vars(&tape, x, y, z, &sv).map(|o| o.0) };
-        match r { Ok(i) => { let slack = 1e-3 * (1.0 + want.abs());
-                             if !(i.has_nan() || (i.lower() - slack <= want && want <= i.upper() + slack)) { bad.push(format!("kind=interval-excludes-point backend={backend} [{}, {}] point {}", i.lower(), i.upper(), want)); } }
-                  Err(e) => bad.push(format!("kind=interval-error backend={backend} {e}")) }
+        let degenerate = ipos.iter().all(|i| !i.has_nan() && i.lower() == i.upper());
+        let expect = if degenerate { point_at(ipos[0].lower(), ipos[1].lower(), ipos[2].lower()) } else { None };
+        match (r, expect) { (Ok(i), Some(w2)) if !w2.is_nan() => { let slack = 1e-3 * (1.0 + w2.abs());
+                             let inside = if w2.is_infinite() { i.lower() <= w2 && w2 <= i.upper() } else { i.lower() - slack <= w2 && w2 <= i.upper() + slack };
+                             if !(i.has_nan() || inside) { let a = alt_at([ipos[0].lower(), ipos[1].lower(), ipos[2].lower()]);
+                                 let kind = if i.lower() - slack <= a && a <= i.upper() + slack { "abs-keeps-negative-zero" } else { "interval-excludes-point" };
+                                 bad.push(format!("kind={kind} backend={backend} [{}, {}] point evaluator at the same position {}", i.lower(), i.upper(), w2)); } }
+                  (Err(e), _) => bad.push(format!("kind=interval-error backend={backend} {e}")), _ => {} }
     }
 }
 
